@@ -172,6 +172,9 @@ struct Stats {
     evaluations: u64,
     nontrivial: u64,
     digests: HashSet<u64>,
+    /// non-trivial cases beyond the digest cap (counted, not de-duplicated; reported separately)
+    #[serde(default)]
+    undigested: u64,
     hist: BTreeMap<String, u64>,
     samples: BTreeMap<String, Value>,
     known_hits: BTreeMap<String, u64>,
@@ -185,6 +188,7 @@ impl Stats {
         self.evaluations += o.evaluations;
         self.nontrivial += o.nontrivial;
         self.digests.extend(o.digests);
+        self.undigested += o.undigested;
         for (k, v) in o.hist {
             *self.hist.entry(k).or_default() += v;
         }
@@ -211,6 +215,9 @@ struct Shared<C> {
 }
 
 const MAX_NEW_SIGNATURES: usize = 40;
+
+/// Per worker bound on remembered case digests.
+const DIGEST_CAP: usize = 4_000_000;
 
 fn run_caught<P: Prop>(prop: &P, case: &P::Case) -> Result<Outcome, String> {
     match panics::catch(|| prop.run(case)) {
@@ -255,7 +262,12 @@ impl<'a, P: Prop> Worker<'a, P> {
         self.stats.evaluations += 1;
         if out.nontrivial {
             self.stats.nontrivial += 1;
-            self.stats.digests.insert(self.prop.case_digest(case));
+            // the digest set is bounded (8 bytes x billions of enumerated cases would exhaust memory)
+            if self.stats.digests.len() < DIGEST_CAP {
+                self.stats.digests.insert(self.prop.case_digest(case));
+            } else {
+                self.stats.undigested += 1;
+            }
         }
         if let Some(e) = &out.excluded {
             *self.stats.excluded.entry(e.clone()).or_default() += 1;
@@ -890,6 +902,7 @@ fn finish<P: Prop>(prop: &P, opts: &mut Opts, total: Stats, mine: &[Finding], re
         "evaluations": total.evaluations,
         "distinct_nontrivial": total.digests.len(),
         "nontrivial_evaluations": total.nontrivial,
+        "nontrivial_beyond_digest_cap": total.undigested,
         "rule": prop.rule(),
         "samples": samples,
         "class_histogram": total.hist,
